@@ -16,6 +16,7 @@ CONSTANTS
   RPass = {"p1"}
   MaxHist = 0
   MaxLines = 0
+  BigResp = TRUE
   MaxConns = 2
   MaxCItems = 0
 """
@@ -207,21 +208,40 @@ def run(prop, tier):
     verdict, drift = vlib.Verdict(prop), []
     binp = build(prop)
     if prop == "C12":
-        r, cfg = model_check(prop, tier)
-        streams = vlib.tlc_json_lines(r.stdout, "ST")
-        gr = vlib.tlc_json_lines(r.stdout, "GR")[0]
-        if not streams:
-            raise NoVerdict("TLC exported no stream")
-        plan = {"streams": streams, "groups": gr["groups"], "group_of": {str(k): v for k, v in gr["group_of"].items()},
-                "sweep": True, "random": 1500 if tier == "quick" else 20000, "maxlen": 6 if tier == "quick" else 10,
-                "replays": [], "workers": 3, "pipe_every": 7}
-        ts, summ = run_harness(prop, binp, plan, cfg, 3000)
-        st = summ["stats"]
-        if st.get("streams", 0) < len(streams):
-            raise NoVerdict("the harness replayed %d of %d exported streams" % (st.get("streams", 0), len(streams)))
-        nval, vst = judge(prop, verdict, ts, cfg, drift)
+        # thorough: the 20 boundary codes (t12) and, on the small code set, responses next to / above 16 MiB (b12)
+        wcfgs = ["MCWire_q12"] if tier == "quick" else ["MCWire_t12", "MCWire_b12"]
+        r = cfg = summ = None
+        nval, nstreams, st = 0, 0, {}
+        plan = {}
+        for ci, wcfg in enumerate(wcfgs):
+            ri, cfg_i = model_check(prop, tier, cfg=wcfg)
+            streams = vlib.tlc_json_lines(ri.stdout, "ST")
+            gr = vlib.tlc_json_lines(ri.stdout, "GR")[0]
+            if not streams:
+                raise NoVerdict("TLC exported no stream")
+            first = ci == 0
+            plan = {"streams": streams, "groups": gr["groups"], "group_of": {str(k): v for k, v in gr["group_of"].items()},
+                    "resp_sizes": {k: sorted(v) for k, v in gr["resp_sizes"].items()},
+                    "sweep": first, "random": (1500 if tier == "quick" else 20000) if first else 0, "maxlen": 6 if tier == "quick" else 10,
+                    "replays": [], "workers": 3, "pipe_every": 7}
+            ts, summ_i = run_harness(prop, binp, plan, cfg_i, 3000)
+            st_i = summ_i["stats"]
+            if st_i.get("streams", 0) < len(streams):
+                raise NoVerdict("the harness replayed %d of %d exported streams" % (st_i.get("streams", 0), len(streams)))
+            nv, vst = judge(prop, verdict, ts, cfg_i, drift)
+            nval += nv
+            nstreams += len(streams)
+            for k, v in st_i.items():
+                st[k] = max(st.get(k, 0), v) if k in ("distinct_labels", "codes_seen") else st.get(k, 0) + v
+            if first:
+                r, cfg, summ, plan0 = ri, cfg_i, summ_i, plan
+            else:
+                r.distinct += ri.distinct
+                r.generated += ri.generated
+        plan = plan0
+        streams = range(nstreams)
         # several connections to one server at the same time (AgentWire part 3)
-        rc_, ccfg = model_check(prop, tier, cfg=cfg.replace("12", "12c"), actions=("StartC", "ConsumeC"))
+        rc_, ccfg = model_check(prop, tier, cfg=("MCWire_q12c" if tier == "quick" else "MCWire_t12c"), actions=("StartC", "ConsumeC"))
         cplan = {"sessions": 80 if tier == "quick" else 600, "rounds": 12}
         cts, csumm = run_conc(prop, binp, cplan, ccfg, 3000)
         cst = csumm["stats"]
@@ -242,7 +262,8 @@ def run(prop, tier):
                "evaluations": st.get("steps", 0), "distinct_nontrivial": st.get("distinct_labels", 0),
                "message_codes_exercised": st.get("codes_seen", 0), "panics_observed": st.get("panics", 0),
                "rule": "every stream of <= 3 items of the bounded model is instantiated with concrete bytes and served by the real ServeAgent; every code 0..255 in every frame shape; random/grammar streams; every served stream (items, number of response frames, end status, panic, allocation) is judged by TLC with C12_Stream, the set of outcomes the statement allows for that item list, independent of how the server reads its input (distinct_nontrivial = distinct (item class, responses while current, end) labels observed; evaluations = items served)",
-               "spec_drift": len(drift), "zero_coverage_actions": r.coverage_zero, "model_cfgs": [cfg, ccfg]}
+               "spec_drift": len(drift), "zero_coverage_actions": r.coverage_zero, "model_cfgs": wcfgs + [ccfg],
+               "sized_responses_checked": st.get("sized", 0), "sized_responses_intact": st.get("sizedok", 0)}
         cov["rule"] += "; concurrent stage: 2..8 connections to one real NewServer, each sending well-formed frames in lock step at the same time while the shim holds expired hardware certificates; per connection judged with C12_Conn (stream outcome + every list request answered with an identities answer); the stage runs in its own process and a runtime abort ('fatal error: concurrent map ...') is judged as a crashed connection"
         assumptions = ["the underlying agent is x/crypto's keyring behind the harness frame proxy on a unix socket; it answers every forwarded request unless the harness makes it close the connection",
                        "only the number of response frames and the end status are judged (responses are not attributed to requests: a server may read ahead); order is therefore checked as a count per stream prefix, not by response content",
